@@ -9,12 +9,14 @@ CONSTANTS
   UseUntil = TRUE
   PreStarted = FALSE
   FixedStopOrder = 0
+  ResetInRun = FALSE
 SPECIFICATION Spec
 INVARIANT TypeOK
 INVARIANT BackoffLaw
 INVARIANT ClearOnSuccess
 INVARIANT BackoffState
 INVARIANT NoDoAfterStopReturned
+INVARIANT StopCanReturn
 INVARIANT DoneExactlyOnceIfFinal
 INVARIANT NoRestartAfterFinalStop
 INVARIANT SurvivesAnythingSeen
